@@ -15,6 +15,7 @@ package server
 import (
 	"errors"
 	"fmt"
+	"os"
 	"sort"
 	"strings"
 	"testing"
@@ -182,6 +183,7 @@ type c07World struct {
 	envLeft int
 	runDone bool
 	runErr  error
+	covx    map[string]bool
 }
 
 func (w *c07World) next() int { w.seq++; return w.seq }
@@ -459,6 +461,9 @@ func (l *c07Log) Close(id uint32, err error) {
 	ev := &c07Ev{kind: "close", id: id, err: err, t: w.e.Now(), seq: w.next(), ent: w.ent(w.peek(id)), afterLoss: w.lost}
 	w.evs = append(w.evs, ev)
 	w.logf("Close s%d err=%v", id, err)
+	if w.cur != nil && w.cur.id == id {
+		w.covx["close-event-while-datagram-of-same-id-in-flight"] = true
+	}
 	if en := ev.ent; en != nil {
 		en.closes++
 		if en.closes > 1 {
@@ -672,8 +677,83 @@ func (w *c07World) quiescent(final bool) {
 	w.logf("check count=%d", len(ids))
 }
 
+// c07Cov: diagnostic reachability counters (VERIF_C07_COV=1 prints them); never read by an execution.
+var c07Cov = map[string]int64{}
+
+func (w *c07World) coverage() {
+	f := map[string]bool{}
+	closedIDs := map[uint32]int{}
+	for _, ev := range w.evs {
+		if ev.kind == "close" {
+			if closedIDs[ev.id] == 0 {
+				closedIDs[ev.id] = ev.seq
+			}
+			if ev.err == nil && !ev.afterLoss {
+				f["sweep-close"] = true
+			}
+			if ev.afterLoss {
+				f["close-after-loss"] = true
+			}
+			if ev.err != nil {
+				f["close-with-error"] = true
+			}
+			if ev.ent != nil && ev.ent.news == 0 {
+				f["close-without-new(never dialled)"] = true
+			}
+		}
+	}
+	for _, s := range w.socks {
+		for _, wr := range s.writes {
+			f["write-"+wr.res] = true
+		}
+	}
+	for _, d := range w.dgs {
+		if d.dialFlt {
+			f["dial-fault"] = true
+		}
+		if d.complete && !d.miss && d.act.done {
+			found := false
+			for _, s := range w.socks {
+				for _, wr := range s.writes {
+					if wr.payload[0] == d.tag {
+						found = true
+					}
+				}
+			}
+			if !found {
+				f["datagram-dropped-on-closing-session"] = true
+			}
+		}
+		if d.miss && closedIDs[d.id] != 0 && closedIDs[d.id] < d.act.sDel {
+			f["fresh-session-after-close"] = true
+		}
+		if !d.complete && d.msg.FragID == 1 && len(d.socks) == 1 {
+			f["fragments-reassembled-and-dialled"] = true
+		}
+		if !d.complete && d.msg.FragID == 1 && !d.miss && len(d.socks) == 0 && d.act.done {
+			f["second-fragment-without-dial"] = true
+		}
+	}
+	for _, r := range w.reps {
+		if r.sends > 1 {
+			f["reply-fragmented"] = true
+		}
+		if r.read {
+			f["reply-forwarded"] = true
+		}
+	}
+	for k := range w.covx {
+		f[k] = true
+	}
+	for k := range f {
+		c07Cov[w.sc.name+": "+k]++
+	}
+	c07Cov[w.sc.name+": executions"]++
+}
+
 func (w *c07World) final() {
 	e := w.e
+	w.coverage()
 	if !w.runDone {
 		e.Fail("C07 leak: Run did not return after connection loss")
 	} else if w.runErr != c07ErrLost {
@@ -760,7 +840,7 @@ func (w *c07World) final() {
 // body
 
 func (sc *c07Scn) body(e *vsched.Exec) {
-	w := &c07World{e: e, sc: sc, dgByTag: map[byte]*c07DgRec{}, fragTag: map[uint32]byte{}, repTag: map[byte]*c07Rep{},
+	w := &c07World{e: e, sc: sc, covx: map[string]bool{}, dgByTag: map[byte]*c07DgRec{}, fragTag: map[uint32]byte{}, repTag: map[byte]*c07Rep{},
 		live: map[uint32]bool{}, ents: map[*udpSessionEntry]*c07Ent{}}
 	w.m = newUDPSessionManager(&c07IO{w}, &c07Log{w}, time.Duration(c07Timeout))
 	vsched.GoNamed("c07-run", func() {
@@ -841,7 +921,7 @@ func c07Sig(o *vsched.Outcome) string {
 func c07Scenarios() []*c07Scn {
 	s := c07Sec
 	q := explore.Bounds{P: 2, E: 1, FreeSwitch: true}
-	t := explore.Bounds{P: 3, E: 2}
+	t := explore.Bounds{P: 3, E: 2, FreeSwitch: true}
 	return []*c07Scn{
 		// reply direction keeps the session alive across the sweep at 3 s; it expires at 4 s
 		{name: "reply-keeps-alive", quick: q, thorough: t,
@@ -914,6 +994,18 @@ func TestVerifC07UDPSessions(t *testing.T) {
 		}
 		sc := sc
 		scs = append(scs, &explore.Scenario{Name: sc.name, Quick: sc.quick, Thorough: sc.thorough, Body: sc.body, Sig: c07Sig})
+	}
+	if os.Getenv("VERIF_C07_COV") != "" {
+		defer func() {
+			var ks []string
+			for k := range c07Cov {
+				ks = append(ks, k)
+			}
+			sort.Strings(ks)
+			for _, k := range ks {
+				fmt.Printf("C07COV %-90s %d\n", k, c07Cov[k])
+			}
+		}()
 	}
 	explore.Main(t, "C07", scs)
 }
